@@ -18,6 +18,17 @@ import (
 // binding of a reply and the completion of its call, so that a duplicate reply is read while the
 // first one is still being handled. Oracle: no crash, every caller completes exactly once within
 // the watchdog, the session ends after the input is exhausted, the control session keeps working.
+// a handler of the session under test that makes a call of its own on the same session
+// (both ends of a session are peers: a handler calling back is ordinary use)
+var cbDone = make(chan int32, 64)
+
+func callbackHandler(ctx erpc.CallCtx, arg *string) (string, *erpc.Status) {
+	var res string
+	stt := ctx.Session().Call("/srv/never", "from-handler", &res).Status()
+	cbDone <- stt.Code()
+	return "done", nil
+}
+
 func runReplies(cfg *RunCfg) {
 	r := cfg.Rng
 	Quiet()
@@ -47,7 +58,7 @@ func runReplies(cfg *RunCfg) {
 	})
 	defer erpc.VerifSetGate(nil)
 	distinct := DistinctSet{}
-	classes := []string{"ok", "dup2", "dup3", "wrong-seq", "error-status", "bad-body", "reply+garbage", "reply+oversize", "truncated", "nothing", "close-then-eof", "close-then-oversize", "close-then-reply", "eof-in-asynccall", "garbage-in-asynccall"}
+	classes := []string{"ok", "dup2", "dup3", "wrong-seq", "error-status", "bad-body", "reply+garbage", "reply+oversize", "truncated", "nothing", "close-then-eof", "close-then-oversize", "close-then-reply", "eof-in-asynccall", "garbage-in-asynccall", "eof-in-handler-callback"}
 	for i := 0; i < cfg.N; i++ {
 		if len(st.OracleFailures) >= 6 {
 			st.Count("stopped-early-after-failures")
@@ -58,6 +69,7 @@ func runReplies(cfg *RunCfg) {
 		ncalls := 1 + r.Intn(3)
 		st.Count("replies:" + class)
 		cli := erpc.NewPeer(erpc.PeerConfig{})
+		cbName := cli.RouteCallFunc(callbackHandler)
 		cc, sc := MemPair()
 		var sess erpc.Session
 		done := make(chan struct{})
@@ -72,7 +84,25 @@ func runReplies(cfg *RunCfg) {
 		distinct.Add(fmt.Sprintf("%s/%d/%d", class, ncalls, i%7))
 		ch := make(chan erpc.CallCmd, 16)
 		var cmds []erpc.CallCmd
-		if class == "eof-in-asynccall" || class == "garbage-in-asynccall" {
+		if class == "eof-in-handler-callback" {
+			// the peer sends a CALL whose handler calls back on the same session; the peer reads that
+			// request, never answers it, and ends the stream: the handler's call must complete (the
+			// connection is gone), the handler return and the session end
+			ncalls = 0
+			m := socket.NewMessage(socket.WithServiceMethod(cbName), socket.WithBody([]byte(`"go"`)), socket.WithBodyCodec('j'))
+			m.SetMtype(erpc.TypeCall)
+			m.SetSeq(77)
+			rp.Sock.WriteMessage(m)
+			if _, err := rp.Recv(5 * time.Second); err != nil {
+				st.Fail(i, "callback-not-sent", "the handler's own call never reached the peer: "+err.Error(), human)
+			}
+			sc.CloseWrite()
+			select {
+			case <-cbDone:
+			case <-time.After(8 * time.Second):
+				st.Fail(i, "caller-blocked", "a handler's own call on the session never completed after the peer ended the stream (the disconnect path waits for the handler, the handler waits for its call)", human)
+			}
+		} else if class == "eof-in-asynccall" || class == "garbage-in-asynccall" {
 			// the stream ends (or turns to garbage) while a caller is INSIDE AsyncCall: stored in
 			// the pending table, holding the call's mutex, request not yet written
 			ncalls = 1
